@@ -6,7 +6,7 @@ package main
 // Lean side: namespace Generated.Pool, consumed by QuartzModel/Theorems/C12.lean (C12_facts).
 // Codes (kept numeric so that the Lean side is a plain `decide`):
 //   guard: 0 = `sched.opts.BlockingExecution`, 1 = `sched.opts.WorkerLimit > 0`, 2 = `default`, 9 = anything else
-//   arm:   0 = calls executeWithRetries in the loop goroutine, 1 = sends on sched.dispatch (select with ctx.Done),
+//   arm:   0 = calls executeWithRetries in the loop goroutine, 1 = sends on the run's dispatch channel (select with ctx.Done),
 //          2 = wg.Add(1); go func(){ … executeWithRetries … }() without waiting, 9 = anything else
 
 import (
@@ -22,7 +22,8 @@ func init() { register(extractPool, renderPool) }
 
 type poolFacts struct {
 	DispatchCap    int64      `json:"dispatchCap"`    // -1 = not found
-	DispatchWrites int        `json:"dispatchWrites"` // assignments to .dispatch outside the constructor literal
+	DispatchWrites int        `json:"dispatchWrites"` // anything else called dispatch that is written (assignment, struct field, literal key, selector); must be 0
+	DispatchPerRun bool       `json:"dispatchPerRun"` // the value made in Start is the one handed to the loop and to the workers of that run; send / receive use the parameters
 	SwitchText     [][]string `json:"switchText"`     // [condition, arm] as read
 	SwitchCodes    [][2]int   `json:"switchCodes"`
 	WorkersGuard   []string   `json:"workersGuard"` // conjuncts of startWorkers' if
@@ -30,7 +31,7 @@ type poolFacts struct {
 	WorkerLoop     string     `json:"workerLoop"`   // "init; cond; post"
 	WorkerLoopOK   bool       `json:"workerLoopOK"` // i := 0; i < sched.opts.WorkerLimit; i++ with exactly one go statement per iteration
 	WorkerBody     []string   `json:"workerBody"`   // comm clauses of the worker's select
-	WorkerBodyOK   bool       `json:"workerBodyOK"` // for { select { case <-ctx.Done(): return; case x := <-sched.dispatch: executeWithRetries } }
+	WorkerBodyOK   bool       `json:"workerBodyOK"` // for { select { case <-ctx.Done(): return; case x := <-dispatch: executeWithRetries } }
 }
 
 func xpExprStr(e ast.Expr) string { return types.ExprString(e) }
@@ -65,7 +66,7 @@ func xpClassifyArm(body []ast.Stmt) (int, string) {
 	hasGo := xpContainsNode(blk, func(x ast.Node) bool { _, ok := x.(*ast.GoStmt); return ok })
 	hasSend := xpContainsNode(blk, func(x ast.Node) bool {
 		s, ok := x.(*ast.SendStmt)
-		return ok && xpIsSel(s.Chan, "sched.dispatch")
+		return ok && xpIsSel(s.Chan, "dispatch")
 	})
 	hasRecv := xpContainsNode(blk, func(x ast.Node) bool {
 		u, ok := x.(*ast.UnaryExpr)
@@ -96,7 +97,7 @@ func xpClassifyArm(body []ast.Stmt) (int, string) {
 				}
 			}
 			// a `default` clause would turn the blocking hand-off into a drop: not the modelled arm
-			if len(comms) == 2 && comms[0] == "sched.dispatch <- scheduled" && comms[1] == "<-ctx.Done()" {
+			if len(comms) == 2 && comms[0] == "dispatch <- scheduled" && comms[1] == "<-ctx.Done()" {
 				return 1, "select { " + strings.Join(comms, " | ") + " }"
 			}
 			return 9, "select { " + strings.Join(comms, " | ") + " }"
@@ -118,18 +119,52 @@ func extractPool(repo string, fx *Facts) {
 	pf := &poolFacts{DispatchCap: -1}
 	fx.Extra["pool"] = pf
 
-	// 1. dispatch: make(chan ScheduledJob) in the constructor literal, never reassigned
-	if fd := p.funcDecl("NewStdScheduler"); fd != nil {
-		ast.Inspect(fd.Body, func(n ast.Node) bool {
-			kv, ok := n.(*ast.KeyValueExpr)
-			if !ok {
-				return true
+	// 1. dispatch: `dispatch := make(chan ScheduledJob)` in Start — one unbuffered channel per run — and that same value
+	//    is what the loop sends on and the workers of that run receive from; nothing else is ever called dispatch
+	var chanObj any // the object defined by the := in Start
+	objOf := func(e ast.Expr) any {
+		id, ok := e.(*ast.Ident)
+		if !ok {
+			return nil
+		}
+		if o := p.info.Uses[id]; o != nil {
+			return o
+		}
+		if o := p.info.Defs[id]; o != nil {
+			return o
+		}
+		return nil
+	}
+	paramObj := func(fd *ast.FuncDecl, idx int, name, typ string) any {
+		if fd == nil {
+			return nil
+		}
+		k := 0
+		for _, f := range fd.Type.Params.List {
+			for _, nm := range f.Names {
+				if k == idx {
+					if nm.Name == name && xpExprStr(f.Type) == typ {
+						return p.info.Defs[nm]
+					}
+					return nil
+				}
+				k++
 			}
-			if id, ok := kv.Key.(*ast.Ident); !ok || id.Name != "dispatch" {
-				return true
+		}
+		return nil
+	}
+	if fd := p.method("StdScheduler", "Start"); fd != nil {
+		for _, st := range fd.Body.List {
+			as, ok := st.(*ast.AssignStmt)
+			if !ok || as.Tok != token.DEFINE || len(as.Lhs) != 1 || len(as.Rhs) != 1 {
+				continue
 			}
-			if call, ok := kv.Value.(*ast.CallExpr); ok && callName(call) == "make" && len(call.Args) >= 1 {
-				if _, isChan := call.Args[0].(*ast.ChanType); isChan {
+			id, ok := as.Lhs[0].(*ast.Ident)
+			if !ok || id.Name != "dispatch" {
+				continue
+			}
+			if call, ok := as.Rhs[0].(*ast.CallExpr); ok && callName(call) == "make" && len(call.Args) >= 1 {
+				if ct, isChan := call.Args[0].(*ast.ChanType); isChan && ct.Dir == (ast.SEND|ast.RECV) {
 					switch len(call.Args) {
 					case 1:
 						pf.DispatchCap = 0
@@ -138,29 +173,125 @@ func extractPool(repo string, fx *Facts) {
 							pf.DispatchCap = v
 						}
 					}
-					fx.Where["pool.dispatch"] = p.pos(kv)
+					chanObj = p.info.Defs[id]
+					fx.Where["pool.dispatch"] = p.pos(as)
 				}
 			}
-			return true
-		})
+		}
 	}
+	// every other thing called dispatch that is written: assignments, struct fields, literal keys, selectors
+	pf.DispatchWrites = -1 // the := in Start is expected once
 	for _, f := range p.files {
 		ast.Inspect(f, func(n ast.Node) bool {
-			if as, ok := n.(*ast.AssignStmt); ok {
-				for _, l := range as.Lhs {
-					if se, ok := l.(*ast.SelectorExpr); ok && se.Sel.Name == "dispatch" {
+			switch x := n.(type) {
+			case *ast.AssignStmt:
+				for _, l := range x.Lhs {
+					if id, ok := l.(*ast.Ident); ok && id.Name == "dispatch" {
 						pf.DispatchWrites++
+					}
+				}
+			case *ast.SelectorExpr:
+				if x.Sel.Name == "dispatch" {
+					pf.DispatchWrites += 100
+				}
+			case *ast.KeyValueExpr:
+				if id, ok := x.Key.(*ast.Ident); ok && id.Name == "dispatch" {
+					pf.DispatchWrites += 100
+				}
+			case *ast.StructType:
+				for _, fl := range x.Fields.List {
+					for _, nm := range fl.Names {
+						if nm.Name == "dispatch" {
+							pf.DispatchWrites += 100
+						}
 					}
 				}
 			}
 			return true
 		})
 	}
+	// the wiring of that one value
+	{
+		ok := chanObj != nil
+		calls := map[string]int{}
+		argOK := map[string]bool{}
+		for _, f := range p.files {
+			for _, d := range f.Decls {
+				fd, isFn := d.(*ast.FuncDecl)
+				if !isFn || fd.Body == nil {
+					continue
+				}
+				ast.Inspect(fd.Body, func(n ast.Node) bool {
+					c, isCall := n.(*ast.CallExpr)
+					if !isCall {
+						return true
+					}
+					name := callName(c)
+					switch name {
+					case "startExecutionLoop", "startWorkers", "executeAndReschedule":
+						calls[name]++
+						if len(c.Args) == 2 {
+							want := chanObj
+							if name == "executeAndReschedule" {
+								want = paramObj(p.method("StdScheduler", "startExecutionLoop"), 1, "dispatch", "chan<- ScheduledJob")
+							}
+							caller := "Start"
+							if name == "executeAndReschedule" {
+								caller = "startExecutionLoop"
+							}
+							argOK[name] = want != nil && objOf(c.Args[1]) == want && fd.Name.Name == caller
+						}
+					}
+					return true
+				})
+			}
+		}
+		for _, name := range []string{"startExecutionLoop", "startWorkers", "executeAndReschedule"} {
+			if calls[name] != 1 || !argOK[name] {
+				ok = false
+			}
+		}
+		// the send site uses executeAndReschedule's parameter, the receive site startWorkers' parameter
+		sendP := paramObj(p.method("StdScheduler", "executeAndReschedule"), 1, "dispatch", "chan<- ScheduledJob")
+		recvP := paramObj(p.method("StdScheduler", "startWorkers"), 1, "dispatch", "<-chan ScheduledJob")
+		sends, recvs := 0, 0
+		for _, f := range p.files {
+			for _, d := range f.Decls {
+				fd, isFn := d.(*ast.FuncDecl)
+				if !isFn || fd.Body == nil {
+					continue
+				}
+				ast.Inspect(fd.Body, func(n ast.Node) bool {
+					switch x := n.(type) {
+					case *ast.SendStmt:
+						if id, isID := x.Chan.(*ast.Ident); isID && id.Name == "dispatch" {
+							sends++
+							if sendP == nil || objOf(x.Chan) != sendP || fd.Name.Name != "executeAndReschedule" {
+								ok = false
+							}
+						}
+					case *ast.UnaryExpr:
+						if id, isID := x.X.(*ast.Ident); isID && x.Op == token.ARROW && id.Name == "dispatch" {
+							recvs++
+							if recvP == nil || objOf(x.X) != recvP || fd.Name.Name != "startWorkers" {
+								ok = false
+							}
+						}
+					}
+					return true
+				})
+			}
+		}
+		pf.DispatchPerRun = ok && sends == 1 && recvs == 1 && pf.DispatchWrites == 0
+	}
 	if pf.DispatchCap < 0 {
 		fx.miss("pool.dispatchMake")
 	}
 	if pf.DispatchWrites != 0 {
 		fx.miss("pool.dispatchReassigned")
+	}
+	if !pf.DispatchPerRun {
+		fx.miss("pool.dispatchPerRun")
 	}
 
 	// 2. the dispatch switch
@@ -287,7 +418,7 @@ func extractPool(repo string, fx *Facts) {
 	}
 }
 
-// xpWorkerBody recognises   defer wg.Done(); for { select { case <-ctx.Done(): return; case x := <-sched.dispatch: sched.executeWithRetries(…) } }
+// xpWorkerBody recognises   defer wg.Done(); for { select { case <-ctx.Done(): return; case x := <-dispatch: sched.executeWithRetries(…) } }
 func xpWorkerBody(fl *ast.FuncLit) ([]string, bool) {
 	var forS *ast.ForStmt
 	for _, st := range fl.Body.List {
@@ -329,7 +460,7 @@ func xpWorkerBody(fl *ast.FuncLit) ([]string, bool) {
 				s = xpExprStr(cm.Rhs[0])
 			}
 			body := &ast.BlockStmt{List: cl.Body}
-			if s == "<-sched.dispatch" && len(cl.Body) == 1 && xpContainsCall(body, "executeWithRetries") &&
+			if s == "<-dispatch" && len(cl.Body) == 1 && xpContainsCall(body, "executeWithRetries") &&
 				!xpContainsNode(body, func(x ast.Node) bool { _, ok := x.(*ast.GoStmt); return ok }) {
 				okRecv = true
 				out = append(out, s+": sched.executeWithRetries(…)")
@@ -361,8 +492,9 @@ func renderPool(fx *Facts) string {
 	if capv < 0 || pf.DispatchWrites != 0 {
 		capv = 1 << 20 // not found / reassigned somewhere: a value no theorem accepts
 	}
-	fmt.Fprintf(&b, "/-- capacity of `dispatch` (`make(chan ScheduledJob)` in NewStdScheduler, %s; assignments elsewhere: %d) -/\ndef dispatchCap : Nat := %d\n\n",
+	fmt.Fprintf(&b, "/-- capacity of the hand-off channel (`dispatch := make(chan ScheduledJob)` in Start, %s; other writes of anything called dispatch: %d) -/\ndef dispatchCap : Nat := %d\n\n",
 		fx.Where["pool.dispatch"], pf.DispatchWrites, capv)
+	fmt.Fprintf(&b, "/-- one channel per run: the value made in `Start` is the second argument of `go sched.startExecutionLoop(ctx, dispatch)` and of\n    `sched.startWorkers(ctx, dispatch)`, the loop passes its parameter on to `executeAndReschedule`, whose hand-off sends on its parameter;\n    the workers receive from the parameter of `startWorkers`; there is no other send / receive / field / assignment called dispatch -/\ndef dispatchPerRun : Bool := %v\n\n", pf.DispatchPerRun)
 	var cs, doc []string
 	for i, c := range pf.SwitchCodes {
 		cs = append(cs, fmt.Sprintf("(%d, %d)", c[0], c[1]))
